@@ -1,3 +1,4 @@
+import Srtla.Lemmas.ReloadBasic
 import Srtla.Lemmas.Uplink
 import Srtla.Lemmas.Keepalive
 import Srtla.Lemmas.SelectFrame
@@ -211,9 +212,10 @@ def notHk : Ev → Bool
   | .hk _ => false
   | _ => true
 
-theorem step_frame (s : Sys F) (e : Ev) (h : notHk e = true) :
+theorem step_frame (s : Sys F) (e : Ev) (h : notHk e = true) (hnr : e.isReload = false) :
     PW LksFrame s.links (step s e).1.links := by
   cases e with
+  | reload now addrs outs => cases hnr
   | client now pkt => exact handleSrtPacket_frame s pkt now
   | uplink now cid data => exact handleUplinkPacket_frame s cid data now
   | flush now => exact flushAllBatches_frame s now
@@ -228,14 +230,14 @@ theorem step_frame (s : Sys F) (e : Ev) (h : notHk e = true) :
 /-- The state after a list of events (outputs dropped). -/
 def runEvs (s : Sys F) (evs : List Ev) : Sys F := evs.foldl (fun s e => (step s e).1) s
 
-theorem runEvs_frame (s : Sys F) (evs : List Ev) (h : ∀ e ∈ evs, notHk e = true) :
+theorem runEvs_frame (s : Sys F) (evs : List Ev) (h : ∀ e ∈ evs, notHk e = true) (hnr : NoReload evs) :
     PW LksFrame s.links (runEvs s evs).links := by
   unfold runEvs
   induction evs generalizing s with
   | nil => exact pw_refl _
   | cons e es ih =>
     simp only [List.foldl_cons]
-    exact pw_trans (step_frame s e (h e (by simp))) (ih _ (fun e' he' => h e' (by simp [he'])))
+    exact pw_trans (step_frame s e (h e (by simp)) hnr.head) (ih _ (fun e' he' => h e' (by simp [he'])) hnr.tail)
 
 end Srtla.KaTrace
 
@@ -443,8 +445,9 @@ theorem handleUplinkPacket_id (s : Sys F) (cid : Nat) (data : Codec.Bytes) (now 
     · rfl
 
 /-- **Every event keeps every link in place with its conn id** (no uniqueness assumption). -/
-theorem step_id (s : Sys F) (e : Ev) : PW IdFrame s.links (step s e).1.links := by
+theorem step_id (s : Sys F) (e : Ev) (hnr : e.isReload = false) : PW IdFrame s.links (step s e).1.links := by
   cases e with
+  | reload now addrs outs => cases hnr
   | client now pkt => exact handleSrtPacket_id s pkt now
   | uplink now cid data => exact handleUplinkPacket_id s cid data now
   | flush now => exact flushAllBatches_id s now
@@ -463,13 +466,13 @@ theorem step_id (s : Sys F) (e : Ev) : PW IdFrame s.links (step s e).1.links := 
   | stamp idx weak ld ccb cct => exact pw_stampLink (R := IdFrame) IdFrame.rfl' (fun _ _ _ _ _ => rfl) _ _ _ _ _ _
   | syncTimeout => exact pw_syncTimeout (R := IdFrame) _ (fun _ => rfl) _
 
-theorem runEvs_id (s : Sys F) (evs : List Ev) : PW IdFrame s.links (runEvs s evs).links := by
+theorem runEvs_id (s : Sys F) (evs : List Ev) (hnr : NoReload evs) : PW IdFrame s.links (runEvs s evs).links := by
   unfold runEvs
   induction evs generalizing s with
   | nil => exact id_refl _
   | cons e es ih =>
     simp only [List.foldl_cons]
-    exact id_trans (step_id s e) (ih _)
+    exact id_trans (step_id s e hnr.head) (ih _ hnr.tail)
 
 end Srtla.KaTrace
 
@@ -494,15 +497,15 @@ theorem stampLe_fresh (T : Nat) (s : Sys F) (h : ∀ l ∈ s.links, l.lastKeepal
 
 /-- What one event does to one cadence clock: kept, cleared, or — housekeeping at `now` only — set to
 `now` with the link's frame on that tick's wire. -/
-theorem step_lks (s : Sys F) (e : Ev) (j : Nat) (l l' : FLink F) (hl : s.links[j]? = some l)
+theorem step_lks (s : Sys F) (e : Ev) (hnr : e.isReload = false) (j : Nat) (l l' : FLink F) (hl : s.links[j]? = some l)
     (hl' : (step s e).1.links[j]? = some l') :
     l'.core.connId = l.core.connId ∧
     (l'.lastKeepaliveSent = l.lastKeepaliveSent ∨ l'.lastKeepaliveSent = none ∨
       ∃ now, e = .hk now ∧ l'.lastKeepaliveSent = some now ∧
         (l.core.connId, (l.keepalivePacket now).2) ∈ (step s e).2.wire) := by
-  refine ⟨(step_id s e).2 j l l' hl hl', ?_⟩
+  refine ⟨(step_id s e hnr).2 j l l' hl hl', ?_⟩
   by_cases hh : notHk e = true
-  · rcases (step_frame s e hh).2 j l l' hl hl' with h | h
+  · rcases (step_frame s e hh hnr).2 j l l' hl hl' with h | h
     · exact Or.inl h
     · exact Or.inr (Or.inl h)
   · cases e with
@@ -520,9 +523,19 @@ theorem step_lks (s : Sys F) (e : Ev) (j : Nat) (l l' : FLink F) (hl : s.links[j
 theorem stampLe_step (T : Nat) (s : Sys F) (e : Ev) (h : StampLe T s) (ht : ∀ t, e = .hk t → t ≤ T) :
     StampLe T (step s e).1 := by
   intro l' hl' k hk
+  cases hnr : e.isReload with
+  | true =>
+    -- a reload keeps the records of the retained links and appends fresh ones (no stamp)
+    cases e with
+    | reload now addrs outs =>
+      rcases mem_reload hl' with ⟨h1, -⟩ | ⟨id, a, -, -, rfl⟩
+      · exact h l' h1 k hk
+      · cases hk
+    | _ => cases hnr
+  | false =>
   obtain ⟨j, hj⟩ := List.getElem?_of_mem hl'
-  obtain ⟨l, hl, -⟩ := (step_id s e).get' hj
-  rcases (step_lks s e j l l' hl hj).2 with h1 | h1 | ⟨now, he, h1, -⟩
+  obtain ⟨l, hl, -⟩ := (step_id s e hnr).get' hj
+  rcases (step_lks s e hnr j l l' hl hj).2 with h1 | h1 | ⟨now, he, h1, -⟩
   · exact h l (List.mem_of_getElem? hl) k (h1 ▸ hk)
   · rw [h1] at hk; cases hk
   · rw [h1] at hk; cases hk; exact ht _ he
@@ -583,8 +596,19 @@ theorem witnessed_fresh (s : Sys F) (h : ∀ l ∈ s.links, l.lastKeepaliveSent 
 theorem witnessed_step (tr : List (Nat × Nat × Codec.Bytes)) (s : Sys F) (e : Ev) (h : Witnessed tr s) :
     Witnessed (tr ++ evWire s e) (step s e).1 := by
   intro j l' k hl' hk
-  obtain ⟨l, hl, -⟩ := (step_id s e).get' hl'
-  obtain ⟨hid, hch⟩ := step_lks s e j l l' hl hl'
+  cases hnr : e.isReload with
+  | true =>
+    cases e with
+    | reload now addrs outs =>
+      rcases mem_reload (List.mem_of_getElem? hl') with ⟨h1, -⟩ | ⟨id, a, -, -, rfl⟩
+      · obtain ⟨j0, hj0⟩ := List.getElem?_of_mem h1
+        obtain ⟨m, hm, hin⟩ := h j0 l' k hj0 hk
+        exact ⟨m, hm, List.mem_append_left _ hin⟩
+      · cases hk
+    | _ => cases hnr
+  | false =>
+  obtain ⟨l, hl, -⟩ := (step_id s e hnr).get' hl'
+  obtain ⟨hid, hch⟩ := step_lks s e hnr j l l' hl hl'
   rcases hch with h1 | h1 | ⟨now, he, h1, hw⟩
   · obtain ⟨m, hm, hin⟩ := h j l k hl (h1 ▸ hk)
     exact ⟨m, hm.trans hid.symm, List.mem_append_left _ (hid ▸ hin)⟩
